@@ -338,11 +338,39 @@ def _op_child(case, tmp):
     keys0 = list(f.variables.keys())
     vid = lambda k: keys0.index(k)
     mem = backing == 'mem'
-    # ---- input-side facts for the Coq descriptor
-    QUERIES = ('gettimes', 'gettimes-bounds', 'date2num', 'time2idx', 'time2idx-bounds', 'val2idx-nearest', 'val2idx-bounds',
-               'repr', 'dump', 'save')
-    allops = OPS_CLEAN + [o for o in OPS_DEFECT if o not in OPS_CLEAN]
-    desc = ['Query' if op in QUERIES else 'Clean', allops.index(op) if op in allops else 99]
+    # ---- which call of the Coq catalogue (Model/Alias.v `call`) this is, from input-side facts only
+    def call_of():
+        if op in ('copy',): return 'Copy'
+        if op == 'subset': return 'Subset'
+        if op.startswith('slice-'): return 'SliceDims'
+        if op == 'apply-mean': return 'ApplyAlong'
+        if op == 'renvar': return '(RenameVar %d%%nat)' % vid('A')
+        if op == 'rendim': return 'RenameDim'
+        if op == 'insdim': return 'InsertDim'
+        if op.startswith('reorder'): return 'Reorder'
+        if op == 'rmsingle': return 'RemoveSingleton'
+        if op == 'stack': return 'Stack'
+        if op == 'mask' or op.startswith('mask-'): return 'Mask'
+        if op == 'add': return 'Binop'
+        if op == 'eval-expr': return '(EvalExpr %d%%nat)' % vid('A')
+        if op == 'eval-name': return '(EvalName %d%%nat)' % vid('A')
+        if op == 'eval-masked-name': return '(EvalName %d%%nat)' % vid('M' if 'M' in f.variables else 'B')
+        if op in ('eval-view', 'eval-revview', 'eval-asarray'): return '(EvalView %d%%nat)' % vid('A')
+        if op == 'getvarpnc':
+            ck = set(f.getCoords()) | set(f.variables['A'].dimensions)
+            for k in list(ck):
+                if k in f.variables and hasattr(f.variables[k], 'bounds'):
+                    ck.add(f.variables[k].bounds.strip())
+            return '(Getvarpnc %s)' % C.natlist(sorted(vid(k) for k in ck if k in f.variables))
+        if op == 'slice_dim':
+            return '(SliceDim %s)' % C.natlist(sorted(vid(k) for k in keys0 if 'x' in f.variables[k].dimensions))
+        if op in ('gettimes', 'gettimes-bounds') and 'TFLAG' in f.variables: return '(GetTimesTflag %d%%nat)' % vid('TFLAG')
+        if op == 'val2idx-bounds': return '(Val2idxBounds %d%%nat)' % vid('x')
+        if op == 'time2idx-bounds': return '(Val2idxBounds %d%%nat)' % vid('time')
+        allq = ['gettimes', 'gettimes-bounds', 'date2num', 'time2idx', 'val2idx-nearest', 'repr', 'dump', 'save']
+        if op in allq: return '(OtherQuery %d%%nat)' % allq.index(op)
+        raise ValueError('no catalogue entry for ' + op)
+    desc = ['Call', call_of(), bool(mem), list(range(n))]
     before = [_snap(fi) for fi in ins]
     t0 = datetime(2000, 1, 1, 1, tzinfo=timezone.utc)
     res, raised = None, None
@@ -497,7 +525,7 @@ def coq_term(case, obs):
         ob = '[' + '; '.join('[' + '; '.join('None' if x is None else '(Some %d%%nat)' % x for x in o) + ']' for o in obs['obs']) + ']'
         return '(HCase %s %s %s %s)' % (gs, refs, ob, C.natlist(obs['slots']))
     d = obs['desc']
-    o = '(%s %d%%nat)' % (d[0], d[1])
+    o = '(Call %s %s %s)' % (d[1], C.cbool(d[2]), C.natlist(d[3]))
     return '(ACase %s %s %s %s)' % (o, C.natlist(obs['aliased']), C.natlist(obs['mutated']), C.natlist(obs['later']))
 
 
@@ -571,6 +599,80 @@ def _wellformed(steps):
                 return False
             ref.discard(s[1])
     return True
+
+
+# ================================================================================================ tie T (statement anchors)
+ANCHORS = [
+    # (file, qualified function, statement that must be present, statements that must be absent, what the model transcribes)
+    ('core/_files.py', 'PseudoNetCDFFile.copyVariable', ['myvar = self.createVariable(key, dtype, dimensions, fill_value=fill_value)', 'myvar[:] = vals[:]'], [], 'CopyVariable'),
+    ('core/_variables.py', 'PseudoNetCDFVariable.__new__', ['result = np.zeros(shape, typecode)', "result = kwds.pop('values')", 'result = result[...].view(subtype)'], [], 'CreateAssign / CreateValues'),
+    ('core/_files.py', 'PseudoNetCDFFile._copywith', ['outf.copyVariable(vv, key=vk, withdata=data)'], [], 'Copy / RenameDim'),
+    ('core/_files.py', 'PseudoNetCDFFile.subsetVariables', ['outf.copyVariable(varo, key=varkey, withdata=True)'], [], 'Subset'),
+    ('core/_files.py', 'PseudoNetCDFFile.sliceDimensions', ['newvals = varo[...]', 'newvaro[...] = newvals'], [], 'SliceDims'),
+    ('core/_files.py', 'PseudoNetCDFFile.applyAlongDimensions', ['newvals = varo[...]', 'newvaro[...] = newvals'], [], 'ApplyAlong'),
+    ('core/_files.py', 'PseudoNetCDFFile.renameVariables', ['outf.copyVariable(self.variables[oldkey], key=newkey)'], [], 'RenameVar'),
+    ('core/_files.py', 'PseudoNetCDFFile.renameDimensions', ['outf = self.copy()'], [], 'RenameDim'),
+    ('core/_files.py', 'PseudoNetCDFFile.insertDimension', ['var[...] = np.expand_dims(vv[...], axis=bi)', 'outf.copyVariable(vv, key=vk, withdata=True)'], [], 'InsertDim'),
+    ('core/_files.py', 'PseudoNetCDFFile.reorderDimensions', ['outf = self.copy(variables=True)', 'newvals = vv[:].copy()', 'outf.variables[vk] = newvals'], ['newvals = vv[:]', 'newvals = vv[...]'], 'Reorder'),
+    ('core/_files.py', 'PseudoNetCDFFile.removeSingleton', ['outvals = v[...]', 'ov[...] = outvals[...]'], [], 'RemoveSingleton'),
+    ('core/_files.py', 'PseudoNetCDFFile.stack', ['outvar = outf.copyVariable(var, key=varkey, withdata=False)', 'outvar[...] = outvals'], [], 'Stack'),
+    ('core/_files.py', 'PseudoNetCDFFile.mask', ['vals = np.ma.masked_where(where, vals)', 'newvar[...] = vals[...]', 'newvar[...] = vv[...]'], [], 'Mask'),
+    ('core/_files.py', 'PseudoNetCDFFile.eval', ['val = vardict[key]', 'val = val.copy()', 'outf.variables[key] = val'], [], 'EvalExpr / EvalName / EvalView (guard_copy)'),
+    ('core/_files.py', 'PseudoNetCDFFile.getTimes', ["dates = self.variables['TFLAG'][:][:, 0, 0].copy()", 'dates[dates == -635] = 1970001'], ["dates = self.variables['TFLAG'][:][:, 0, 0]"], 'GetTimesTflag'),
+    ('core/_files.py', 'PseudoNetCDFFile.val2idx', ["start = dimvals[:1].astype('d')", "end = dimvals[-1:].astype('d')", 'start -= dval[0]', 'end += dval[-1]'], ['start = dimvals[:1]', 'end = dimvals[-1:]'], 'Val2idxBounds'),
+    ('core/_files.py', 'netcdf.__del__', ['self.close()'], [], 'Handles: finaliser = Close'),
+    ('core/_functions.py', 'getvarpnc', ['vals = var[...]', 'vals = vals.copy()'], [], 'Getvarpnc data variables'),
+    ('core/_functions.py', 'slice_dim', ['outf.variables[varkey] = vout.copy()', 'p2p.addVariable(inf, outf, varkey)'], ['outf.variables[varkey] = vout'], 'SliceDim'),
+    ('core/_functions.py', 'pncbo', ['tmpfile.copyVariable(in1var, key=k)'], [], 'Binop coordinates'),
+]
+
+
+def translate():
+    """Fail-closed statement anchors: every array-creating / storing / in-place statement that Model/Alias.v prog_of transcribes
+    (and the guard of netcdf.close that Model/Handles.v impl_step transcribes) is still in the source, and the pre-repair forms are not."""
+    import ast
+    out, trees = [], {}
+
+    def find(tree, q):
+        node = tree
+        for part in q.split('.'):
+            cand = [n for n in ast.iter_child_nodes(node) if isinstance(n, (ast.FunctionDef, ast.ClassDef)) and n.name == part]
+            if not cand:
+                return None
+            node = cand[0]
+        return node
+    for rel, q, must, mustnot, what in ANCHORS:
+        path = os.path.join(C.SRC, 'PseudoNetCDF', rel)
+        try:
+            if path not in trees:
+                trees[path] = ast.parse(open(path).read())
+            fn = find(trees[path], q)
+            if fn is None:
+                out.append(dict(anchor='%s %s (%s)' % (rel, q, what), ok=False, detail='function not found'))
+                continue
+            st = [ast.unparse(n) for n in ast.walk(fn) if isinstance(n, ast.stmt)]
+            missing = [m for m in must if m not in st]
+            present = [m for m in mustnot if m in st]
+            out.append(dict(anchor='%s %s (%s)' % (rel, q, what), ok=not missing and not present,
+                            detail=('missing: %s; ' % missing if missing else '') + ('pre-repair form present: %s' % present if present else '')))
+        except Exception as e:
+            out.append(dict(anchor='%s %s' % (rel, q), ok=False, detail=str(e)[:200]))
+    # netcdf.close: first statement is the guard, getvarpnc coordinate copy, pncbo values=
+    try:
+        t = trees[os.path.join(C.SRC, 'PseudoNetCDF', 'core/_files.py')]
+        cl = find(t, 'netcdf.close')
+        ok = cl is not None and ast.unparse(cl.body[0]) == 'if not self.isopen():\n    return'
+        out.append(dict(anchor='core/_files.py netcdf.close: first statement `if not self.isopen(): return` (Handles impl_step Close)', ok=ok, detail='' if ok else 'guard missing'))
+        t2 = trees[os.path.join(C.SRC, 'PseudoNetCDF', 'core/_functions.py')]
+        txt = ast.unparse(find(t2, 'getvarpnc'))
+        ok = 'values=coordvar[...].copy() if copy else coordvar[...]' in txt
+        out.append(dict(anchor='core/_functions.py getvarpnc: coordinate variables `values=coordvar[...].copy() if copy else ...`', ok=ok, detail='' if ok else 'changed'))
+        txt = ast.unparse(find(t2, 'pncbo'))
+        ok = "outval = eval('in1var[...] %s in2var[...]' % op)" in txt and 'values=outval' in txt and 'copy=False' not in txt
+        out.append(dict(anchor='core/_functions.py pncbo: values=outval with outval computed by the operator (Binop)', ok=ok, detail='' if ok else 'changed'))
+    except Exception as e:
+        out.append(dict(anchor='guards', ok=False, detail=str(e)[:200]))
+    return out
 
 
 LEVEL_TEXT = ('Theorems (Props/C05.v, all closed under the global context). Handle table (Model/Handles.v, the code since fix '
